@@ -553,7 +553,28 @@ pub fn run(sc: &Scenario, stats: &mut Stats) {
                 } else {
                     let mut pairs = Vec::new();
                     for _ in 0..n {
-                        let (c, s) = join(zlink_tokio::unix::connect(&path), listener.accept()).await;
+                        // every other connection is already queued when `accept` is first polled, next to something
+                        // that is ready at the same moment: an accept that is abandoned loses no connection
+                        let (c, s) = if pairs.len() % 2 == 1 {
+                            let c = zlink_tokio::unix::connect(&path).await;
+                            let first = match select(Box::pin(listener.accept()), Box::pin(std::future::ready(()))).await {
+                                Either::Left((s, _)) => Some(s),
+                                Either::Right(_) => None,
+                            };
+                            let s = match first {
+                                Some(s) => s,
+                                None => match select(Box::pin(listener.accept()), tokio_sleep(5000)).await {
+                                    Either::Left((s, _)) => s,
+                                    Either::Right(_) => {
+                                        ev(json!({"ev":"accept_lost","conn":pairs.len()}));
+                                        return;
+                                    }
+                                },
+                            };
+                            (c, s)
+                        } else {
+                            join(zlink_tokio::unix::connect(&path), listener.accept()).await
+                        };
                         pairs.push(Pair { client: c.unwrap(), server: s.unwrap() });
                     }
                     results = join_all(pairs.into_iter().enumerate().map(|(k, p)| exchange_one(sc, k, p, tokio_sleep))).await;
@@ -595,7 +616,28 @@ pub fn run(sc: &Scenario, stats: &mut Stats) {
                 } else {
                     let mut pairs = Vec::new();
                     for _ in 0..n {
-                        let (c, s) = join(zlink_smol::unix::connect(&path), listener.accept()).await;
+                        // every other connection is already queued when `accept` is first polled, next to something
+                        // that is ready at the same moment: an accept that is abandoned loses no connection
+                        let (c, s) = if pairs.len() % 2 == 1 {
+                            let c = zlink_smol::unix::connect(&path).await;
+                            let first = match select(Box::pin(listener.accept()), Box::pin(std::future::ready(()))).await {
+                                Either::Left((s, _)) => Some(s),
+                                Either::Right(_) => None,
+                            };
+                            let s = match first {
+                                Some(s) => s,
+                                None => match select(Box::pin(listener.accept()), smol_sleep(5000)).await {
+                                    Either::Left((s, _)) => s,
+                                    Either::Right(_) => {
+                                        ev(json!({"ev":"accept_lost","conn":pairs.len()}));
+                                        return;
+                                    }
+                                },
+                            };
+                            (c, s)
+                        } else {
+                            join(zlink_smol::unix::connect(&path), listener.accept()).await
+                        };
                         pairs.push(Pair { client: c.unwrap(), server: s.unwrap() });
                     }
                     results = join_all(pairs.into_iter().enumerate().map(|(k, p)| exchange_one(sc, k, p, smol_sleep))).await;
